@@ -16,7 +16,7 @@ out = []
 man = json.load(open(os.path.join(here, 'MANIFEST.json')))
 out.append('### 10.1 Status per property (generated from MANIFEST.json, evidence/, known findings, mutants/, seeded/)\n')
 out.append('`evaluations` / `distinct` are those of the evidence file present when this table was generated (tier in brackets).\n')
-out.append('| property | claimed level | last evidence: evaluations / distinct non-trivial | fixed | known | builder mutants | seeded defects (rounds 1 / 2 / 3 / 4 / 5 / 6 / 7; after the extensions of §10.7-§10.14; `-` = no seed in that round) |')
+out.append('| property | claimed level | last evidence: evaluations / distinct non-trivial | fixed | known | builder mutants | seeded defects (rounds 1 / 2 / 3 / 4 / 5 / 6 / 7 / 8; after the extensions of §10.7-§10.17; `-` = no seed in that round) |')
 out.append('|---|---|---|---|---|---|---|')
 mut = {}
 for f in glob.glob(os.path.join(here, 'mutants', '*.diff')):
@@ -33,11 +33,11 @@ for l in open(os.path.join(here, 'properties.jsonl')):
         e = json.load(open(ef))
         evs = f"{e['coverage']['evaluations']} / {e['coverage']['distinct_nontrivial']} ({e['tier']}, seed {e['seed']})"
     sd = []
-    for rd in ('seeded', 'seeded2', 'seeded3', 'seeded4', 'seeded5', 'seeded6', 'seeded7'):
+    for rd in ('seeded', 'seeded2', 'seeded3', 'seeded4', 'seeded5', 'seeded6', 'seeded7', 'seeded8'):
         rf = os.path.join(here, rd, pid, 'result_quick.json')
         if os.path.exists(rf):
             sd.append('caught' if json.load(open(rf))['caught'] else ('not-a-defect' if os.path.exists(os.path.join(here, rd, pid, 'NOT-A-DEFECT.md')) else 'MISSED'))
-        elif rd in ('seeded6', 'seeded7'):
+        elif rd in ('seeded6', 'seeded7', 'seeded8'):
             sd.append('-')
     sd = ' / '.join(sd) if sd else '-'
     lvl = claimed[pid]['level_claimed']['category'] if pid in claimed else 'not claimed'
@@ -57,7 +57,7 @@ out.append('### 10.3 Seeded defects written by independent agents (generated fro
 out.append('Each agent saw only the text of the property and a scratch worktree, nothing of /verif. `demo` = exit codes of the agent\'s own demonstration without / with the patch; `check` = exit code of `./check <id> quick` against the patched tree.\n')
 out.append('| property | seeded change | needs | demo | check | first signature reported |')
 out.append('|---|---|---|---|---|---|')
-for d in sorted(glob.glob(os.path.join(here, 'seeded', 'C*'))) + sorted(glob.glob(os.path.join(here, 'seeded2', 'C*'))) + sorted(glob.glob(os.path.join(here, 'seeded3', 'C*'))) + sorted(glob.glob(os.path.join(here, 'seeded4', 'C*'))) + sorted(glob.glob(os.path.join(here, 'seeded5', 'C*'))) + sorted(glob.glob(os.path.join(here, 'seeded6', 'C*'))) + sorted(glob.glob(os.path.join(here, 'seeded7', 'C*'))):
+for d in sorted(glob.glob(os.path.join(here, 'seeded', 'C*'))) + sorted(glob.glob(os.path.join(here, 'seeded2', 'C*'))) + sorted(glob.glob(os.path.join(here, 'seeded3', 'C*'))) + sorted(glob.glob(os.path.join(here, 'seeded4', 'C*'))) + sorted(glob.glob(os.path.join(here, 'seeded5', 'C*'))) + sorted(glob.glob(os.path.join(here, 'seeded6', 'C*'))) + sorted(glob.glob(os.path.join(here, 'seeded7', 'C*'))) + sorted(glob.glob(os.path.join(here, 'seeded8', 'C*'))):
     pid = os.path.basename(d)
     meta = json.load(open(os.path.join(d, 'meta.json')))
     rf = os.path.join(d, 'result_quick.json')
@@ -77,6 +77,8 @@ for d in sorted(glob.glob(os.path.join(here, 'seeded', 'C*'))) + sorted(glob.glo
         pid += ' (round 6)'
     if os.sep + 'seeded7' + os.sep in d:
         pid += ' (round 7)'
+    if os.sep + 'seeded8' + os.sep in d:
+        pid += ' (round 8)'
     out.append(f"| {pid} | {clip(meta['summary'], 220)} | {clip(meta['needs'], 160)} | {res['demo_without_patch_exit']}/{res['demo_with_patch_exit']} | {res['check_exit']} ({'caught' if res['caught'] else 'MISSED'}) | {clip(sig, 150)} |")
 out.append('')
 out.append('### 10.3b Property-preserving changes written by independent agents (generated from benign/)\n')
